@@ -69,8 +69,20 @@ func (g *PGen) maybeProbe(e *Node) *Node {
 	}
 	if g.o.FP && g.r.Intn(1000) < 60 {
 		g.fpN++
-		if g.r.Chance(1, 3) {
+		switch g.r.Pick([]int{6, 3, 1, 1, 1, 1}) {
+		case 1:
 			return Call("sim:fpo", I(g.fpN), e) // host-registered special operator
+		// the host builtin reached through a builtin that re-enters the
+		// evaluator (a Go panic then unwinds through that builtin's own call
+		// into the interpreter before any evaluation recovers it)
+		case 2:
+			return Call("funcall", A("sim:fp"), I(g.fpN), e)
+		case 3:
+			return Call("funcall", QS("sim:fp"), I(g.fpN), e)
+		case 4:
+			return Call("apply", A("sim:fp"), I(g.fpN), Call("list", e))
+		case 5:
+			return Call("foldl", A("sim:fp"), I(g.fpN), Call("list", e))
 		}
 		return Call("sim:fp", I(g.fpN), e)
 	}
